@@ -103,6 +103,9 @@ def render_order(idx, t):
     # ordered clauses interleaved with exactly quantified unordered clauses of another method
     mixed = [f"Mk::f.next_call(matching!({i})).returns({100 + i}u32)" if i % 2 == 0 else f"Mk::h.some_call(matching!({i})).returns({400 + i}u32).once()" for i in range(n)]
     exp_m = tree_text(t, mixed, [0])
+    # ordered clauses with exact counts 0, 1, 2 (a zero count occupies no slot but stays a clause)
+    counted = [f"Mk::f.next_call(matching!({i})).returns({500 + i}u32).n_times({i % 3})" for i in range(n)]
+    exp_c = tree_text(t, counted, [0])
     return f"""    pub fn run() -> Result<(), String> {{
         // ordered terminal clauses: exactly the left-to-right order is accepted
         let u = Unimock::new({exp_o});
@@ -158,6 +161,24 @@ def render_order(idx, t):
                 return Err(format!("mixed composition: verification after calling every clause once failed: {{msg}}"));
             }}
         }}
+        // exact counts 0..2 on ordered clauses: clause i is expected i % 3 times, in declaration order
+        {{
+            let u = Unimock::new({exp_c});
+            for i in 0..{n}u8 {{
+                for k in 0..(i % 3) {{
+                    match vh::obs::catch(|| u.f(i)) {{
+                        Ok(v) if v == 500 + i as u32 => {{}}
+                        other => return Err(format!("counted ordered clauses: call {{k}} of clause {{i}}: {{other:?}}")),
+                    }}
+                }}
+            }}
+            let zero_counted = (0..{n}u8).filter(|i| i % 3 == 0).count();
+            match vh::obs::catch(move || drop(u)) {{
+                Ok(()) if {n} < 2 => {{}}
+                Ok(()) => {{}}
+                Err(msg) => return Err(format!("counted ordered clauses ({{zero_counted}} with count 0): verification after the declared calls failed: {{msg}}")),
+            }}
+        }}
         // staggered overlap: clause i accepts x >= {n}-1-i, so x = {n}-1-i is answered by clause i
         // exactly if the clauses are tried in declaration order at every position
         let u = Unimock::new({exp_s}).no_verify_in_drop();
@@ -173,15 +194,16 @@ def render_order(idx, t):
 """
 
 
-def render_mixed(idx, arity, i, j, ordered_first):
+def render_mixed(idx, arity, i, j, ordered_first, count=None):
     # positions i < j hold the two clauses of method g; the others are clauses of f
     elems = []
     k = 0
+    q = "" if count is None else f".n_times({count})"
     for p in range(arity):
         if p == i:
-            elems.append("Mk::g.next_call(matching!(_)).returns(1u32)" if ordered_first else "Mk::g.each_call(matching!(_)).returns(1u32)")
+            elems.append(f"Mk::g.next_call(matching!(_)).returns(1u32){q}" if ordered_first else "Mk::g.each_call(matching!(_)).returns(1u32)")
         elif p == j:
-            elems.append("Mk::g.each_call(matching!(_)).returns(2u32)" if ordered_first else "Mk::g.next_call(matching!(_)).returns(2u32)")
+            elems.append("Mk::g.each_call(matching!(_)).returns(2u32)" if ordered_first else f"Mk::g.next_call(matching!(_)).returns(2u32){q}")
         else:
             elems.append(f"Mk::f.each_call(matching!({k})).returns({k}u32)")
             k += 1
@@ -260,6 +282,10 @@ def instances(tier):
             for ordered_first in (True, False):
                 add(f"mixed:arity{arity}/{i},{j}/{'ordered-first' if ordered_first else 'unordered-first'}",
                     render_mixed(len(insts), arity, i, j, ordered_first), {"kind": "mixed"})
+                if arity <= 3 or (i, j) == (0, arity - 1):
+                    for count in (0, 2):
+                        add(f"mixed:arity{arity}/{i},{j}/{'ordered-first' if ordered_first else 'unordered-first'}/ordered-count-{count}",
+                            render_mixed(len(insts), arity, i, j, ordered_first, count), {"kind": "mixed"})
     for arity in range(1, 7):
         for pos in range(arity):
             add(f"empty-stub:arity{arity}/{pos}", render_empty_stub(len(insts), arity, pos), {"kind": "empty-stub"})
